@@ -4,6 +4,7 @@ import XmppModel.Lemmas.NegotiateDone
 import XmppModel.Lemmas.NegotiateComplete
 import XmppModel.Lemmas.NegotiateForced
 import XmppModel.Lemmas.NegotiateVol
+import XmppModel.Lemmas.NegotiateNs
 /-!
 The invariants of the negotiation machine hold in every reachable configuration (initial
 configuration + preservation by `step`, lifted by induction on the number of steps).
@@ -74,9 +75,10 @@ theorem invH_reach {c : Conf} (h : Reach C O st0 script picks c) : InvH O st0 c 
 
 theorem invL_reach {c : Conf} (h : Reach C O st0 script picks c) : InvL C c := by
   refine reach_ind (P := InvL C) ?_ (fun c _ hc => invL_step C O c hc) c h
-  refine ⟨?_, ?_, ?_⟩
+  refine ⟨?_, ?_, ?_, ?_⟩
   · intro _ h; cases h
   · intro h; cases h
+  · intro _ _ h; cases h
   · intro _ _ _ h; cases h
 
 theorem invS_reach {c : Conf} (h : Reach C O st0 script picks c) : InvS script c := by
@@ -93,6 +95,12 @@ theorem invP_reach {c : Conf} (h : Reach C O st0 script picks c) : InvP C script
     · intro _ _ _ _ h; cases h
   · intro c hc hp
     exact invP_step C O script c (invS_reach hc).sub hp
+
+theorem invU_reach {c : Conf} (h : Reach C O st0 script picks c) : InvU O c := by
+  refine reach_ind (P := InvU O) ?_ (fun c _ hc => invU_step C O c hc) c h
+  refine ⟨?_, ?_⟩
+  · intro _ h; cases h
+  · intro _ h; cases h
 
 theorem invQ_reach {c : Conf} (h : Reach C O st0 script picks c) : InvQ c := by
   refine reach_ind (P := InvQ) ?_ (fun c _ hc => invQ_step C O c hc) c h
@@ -131,6 +139,13 @@ theorem invV_reach {c : Conf} (h : Reach C O st0 script picks c) : InvV c := by
   · intro h; rcases h with h | h <;> cases h
   · intro h; cases h
   · intro h; cases h
+
+theorem invN_reach {c : Conf} (h : Reach C O st0 script picks c) : InvN C c := by
+  refine reach_ind (P := InvN C) ?_ (fun c _ hc => invN_step C O c hc) c h
+  refine ⟨List.nodup_nil, ?_, ?_, ?_⟩
+  · intro e he; cases he
+  · intro e he; cases he
+  · intro _ h; cases h
 
 theorem allowed_mandatory {cands : List Entry} {e : Entry} (he : e ∈ allowed cands)
     (hr : e.req = true) : ∀ e' ∈ cands, e'.req = true := by
